@@ -103,6 +103,7 @@ UNITS = {
         "src": "src/sql/executor.rs",
         "anchors": [
             "fn compare_values(a: &Value, b: &Value) -> std::cmp::Ordering",
+            "fn eval_binary_op_standalone(",
             "pub fn new(child: E, limit: Option<u64>, offset: Option<u64>) -> Self",
             "fn next(&mut self) -> Result<Option<ExecutorRow<'a>>>",
         ],
